@@ -43,14 +43,15 @@ type rzState struct {
 	completes []rzComplete
 	instrs    []*pilosa.ResizeInstruction
 	// ownership snapshots taken by "snapowners"
-	before map[string][]string // "index/shard" -> owner ids
-	memberBefore []string
-	frags        map[pilosa.VFragKey][][2]uint64 // fragment contents on an owner at the snapshot
-	pendingJoin  *simNode
+	before        map[string][]string // "index/shard" -> owner ids
+	memberBefore  []string
+	frags         map[pilosa.VFragKey][][2]uint64 // fragment contents on an owner at the snapshot
+	pendingJoin   *simNode
 	pendingRemove string
 	expectRefused bool
 	jobsBefore    int
 	unsettled     bool
+	gate          *gateState
 	joinErr       error
 }
 
@@ -94,7 +95,8 @@ func (d *db) rz() *rzState { return d.aux.(*rzState) }
 
 // racing ops may run while a membership change is in flight; every other op first
 // waits for the change to settle (bounded liveness).
-var rzRacing = map[string]bool{"dupcomplete": true, "errcomplete": true, "unknownjob": true, "abort": true, "netfault": true, "clearfaults": true, "sleep": true, "await": true}
+var rzRacing = map[string]bool{"dupcomplete": true, "errcomplete": true, "unknownjob": true, "abort": true, "netfault": true, "clearfaults": true, "sleep": true, "await": true,
+	"gate": true, "nap": true, "gatewait": true, "reportdown": true, "reportready": true, "leave": true, "back": true, "gatesettle": true}
 
 var rzReadOnly = map[string]bool{"allnodes": true, "checkowners": true, "checkplan": true, "checkplacement": true, "join": true, "remove": true, "snapowners": true}
 
